@@ -20,6 +20,14 @@ assignment of a random integer the histories contain
 After every step every member must equal the parse of its type from the reference bytes and the dump must show the new
 bytes of the assigned member.  States in which a float slot holds a NaN pattern are checked member-wise only (Python
 floats do not preserve NaN payloads; NaNs are outside the domain as in C01/C02) and are not sent to the model.
+
+Placement probes (harness/t3_c11.py) for the clause "parsing consumes exactly that size": about half of the generated unions
+are declared once more as a named type `U`, packed and aligned, and parsed (1) from file-like streams positioned at start
+offsets 0..17 - multiples and non-multiples of the union's alignment -, (2) as `U[n]` from such positions, (3) as the members
+`U u; U w[2];` of packed and aligned outer structures (second `load` with its own align flag, interpreted / compiled), with a
+fixed layout and after a dynamically sized field.  The stream must advance by exactly len(U) (n * len(U)), every member of
+every parsed union must equal the parse of its type from exactly the len(U) bytes at the union's place, and the field after
+the unions must hold the byte that follows them.
 """
 from __future__ import annotations
 
@@ -27,7 +35,7 @@ import io
 import itertools
 import struct as _struct
 
-from .. import common, defs, impl, refimpl
+from .. import common, defs, impl, refimpl, t3_c11
 from ..common import A, Case, Result, mkrng, parse_sexp, run_driver, sx
 from ..structprops import union_dump_incomplete, has
 
@@ -162,9 +170,14 @@ def run(env) -> Result:
                 "mutated in place and assigned back (x = u.arr; x[i].p = v; u.arr = x), u.m = u.m. After every step: each member == parse of "
                 "its type from the reference buffer (overwrite semantics), dumps == reference buffer up to bits that are padding in every "
                 "member (dump not compared while a float slot holds a NaN pattern). "
+                "Placement: the union as named type U (packed / aligned) parsed from file-like streams at start offsets 0..17, as U[n] from "
+                "such offsets, as member `U u; U w[2]` of packed / aligned outer structures (fixed layout and after a dynamic field, "
+                "interpreted / compiled): consumed bytes == len(U) resp. n * len(U), every member == parse of its type from exactly the "
+                "union's bytes, the following field holds the following byte. "
                 "distinct = (definition, config, contents, history prefix); non-trivial = history of >= 1 assignment")
     dc = impl.dc()
     rnd = mkrng(env["seed"], "c11")
+    rnd_place = mkrng(env["seed"], "c11-placement")     # own stream: the histories below stay what they were
     tier = env["tier"]
     findings = {f["id"] for f in env["findings"]}
     lines, metas = [], []
@@ -180,6 +193,8 @@ def run(env) -> Result:
 
     for _ in range(260 if tier == "quick" else 6000):
         utree = gen_union(rnd, counter)
+        if rnd_place.random() < (0.5 if tier == "quick" else 0.3):
+            t3_c11.placement_probes(rnd_place, res, viol, utree, endian=rnd_place.choice("<>"), tier=tier)
         for endian, align in itertools.product("<>", (False, True)):
             if rnd.random() < 0.5:
                 continue
